@@ -416,7 +416,11 @@ def build_case(ck, k):
         for ti in range(ntypes):
             while True:
                 tn = g.ident(UP)
-                if tn.upper() != tn and mangle(tn) not in {mangle(x) for x in names} and mangle(tn) not in {mangle(x[0]) for x in known}:
+                if ck.rng.random() < 0.15:
+                    # capitals, digits and hyphens only (S1AP-PDU-ID): a type reference, not an information object class name
+                    tn = ck.rng.choice(UP) + ''.join(ck.rng.choice(UP + '0123456789') for _ in range(ck.rng.randint(1, 5))) + \
+                        ck.rng.choice(['1', '-2X', '3-ID'])
+                if not all(ch in UP + '-' for ch in tn) and mangle(tn) not in {mangle(x) for x in names} and mangle(tn) not in {mangle(x[0]) for x in known}:
                     break
             t = g.ty(0)
             names.append(tn)
